@@ -362,7 +362,7 @@ class Interp:
             loc = ty[9:ty.index('}')]
             f = self.prog.closure_fn(loc)
             if f is not None:
-                return Closure(f, [], [], loc)
+                return set_closure_env(Closure(f, [], [], loc), dict(fr.env) if fr is not None and fr.env else {})
             return Zst(type_str(subst(parse_type(ty), fr.env)) if fr is not None and fr.env else ty)
         if ty.startswith('fn(') or ty.startswith('for<') or ty.startswith('unsafe fn('):
             # fn item type:  fn(A) -> B {path}
